@@ -193,6 +193,7 @@ type lcMemConn struct {
 	writeBlocked   bool           // a server Write is in progress (blocked on the client)
 	resumes        int            // blocked writes the client has allowed to complete
 	closeErr       bool           // the first Close returns an error
+	writeExpired   bool           // the write deadline was already in the past when the server set it
 	closeHook      func()         // run by the close callback of this connection (after it has been logged)
 	errsExpected   int            // errors handed to the server that it reports through onErrorFunc
 	errsSeen       int            // OnErrorFunc calls attributed to this connection
@@ -262,9 +263,14 @@ func (c *lcMemConn) Write(p []byte) (int, error) {
 		return 0, memErr{c.w.id, c.id, "write on closed connection"}
 	}
 	if c.failWrites || c.clientClosed {
-		w.logLocked(lcEvent{code: evWrite, c: c.id, a: 0})
+		w.logLocked(lcEvent{code: evWrite, c: c.id, a: 0, b: 1}) // b = 1: the peer's doing
 		c.errsExpected++
 		return 0, memErr{c.w.id, c.id, "connection reset by peer"}
+	}
+	if c.writeExpired {
+		w.logLocked(lcEvent{code: evWrite, c: c.id, a: 0, b: 2}) // b = 2: the write deadline had passed when it was set
+		c.errsExpected++
+		return 0, memErr{c.w.id, c.id, "write: i/o timeout (deadline exceeded)"}
 	}
 	if c.slowRead {
 		// zero buffering: the first half is taken, the rest waits for the client to read on
@@ -338,7 +344,17 @@ func (c *lcMemConn) SetReadDeadline(t time.Time) error {
 	c.w.mu.Unlock()
 	return nil
 }
-func (c *lcMemConn) SetWriteDeadline(t time.Time) error { return nil }
+
+// SetWriteDeadline is honoured in the one way that does not depend on how fast the goroutines of the
+// test happen to be scheduled: a deadline that has ALREADY passed when it is set makes the next Write fail
+// with a timeout and write nothing (a deadline in the future can only expire on a Write that blocks on
+// a slow reader, which the scripts resume long before)
+func (c *lcMemConn) SetWriteDeadline(t time.Time) error {
+	c.w.mu.Lock()
+	c.writeExpired = !t.IsZero() && !t.After(time.Now())
+	c.w.mu.Unlock()
+	return nil
+}
 
 var errEOF = io.EOF
 
